@@ -19,6 +19,7 @@ import (
 	"strconv"
 	"strings"
 	"sync"
+	"syscall"
 	"time"
 
 	"verifsim/instrument"
@@ -53,7 +54,10 @@ type finding struct {
 	Commit   string `json:"commit,omitempty"`
 }
 
+var dieHook = func() {}
+
 func die(code int, format string, a ...any) {
+	dieHook()
 	fmt.Fprintf(os.Stderr, format+"\n", a...)
 	os.Exit(code)
 }
@@ -70,10 +74,45 @@ type built struct {
 	stats   *instrument.Stats
 }
 
-func build(id string, m *meta) *built {
+// repoLock serialises access to /repo's working tree between concurrent checks:
+// a plain check holds it shared while it reads the tree (instrument + build), a
+// check started with --patch holds it exclusively while the patch is applied.
+func repoLock(exclusive bool) func() {
+	f, err := os.OpenFile("/tmp/verif-repo.lock", os.O_CREATE|os.O_RDWR, 0o666)
+	if err != nil {
+		return func() {}
+	}
+	how := syscall.LOCK_SH
+	if exclusive {
+		how = syscall.LOCK_EX
+	}
+	syscall.Flock(int(f.Fd()), how)
+	return func() { syscall.Flock(int(f.Fd()), syscall.LOCK_UN); f.Close() }
+}
+
+func build(id string, m *meta, patch string) *built {
 	scratch, err := os.MkdirTemp("", "verif-"+id+"-")
 	if err != nil {
 		die(2, "mkdtemp: %v", err)
+	}
+	unlock := repoLock(patch != "")
+	defer unlock()
+	if patch != "" {
+		abs, _ := filepath.Abs(patch)
+		if out, err := exec.Command("git", "-C", repoDir, "apply", abs).CombinedOutput(); err != nil {
+			os.RemoveAll(scratch)
+			unlock()
+			die(3, "patch %s does not apply: %v %s", patch, err, out)
+		}
+		revert := func() {
+			if out, err := exec.Command("git", "-C", repoDir, "apply", "-R", abs).CombinedOutput(); err != nil {
+				fmt.Fprintf(os.Stderr, "WARNING: could not revert %s: %v %s\n", patch, err, out)
+			}
+		}
+		defer revert()
+		dieOrig := dieHook
+		dieHook = func() { revert(); unlock() }
+		defer func() { dieHook = dieOrig }()
 	}
 	pkg := "./harness/" + strings.ToLower(id)
 	ov, st, err := instrument.Run(instrument.Options{RepoDir: repoDir, VerifDir: verifDir, OutDir: scratch,
@@ -132,6 +171,7 @@ func main() {
 	budget := flag.Duration("budget", 0, "wall-clock budget for runs")
 	keep := flag.Bool("keep", false, "keep scratch dir")
 	noShrink := flag.Bool("noshrink", false, "do not shrink")
+	patch := flag.String("patch", "", "apply this patch to /repo while building (reverted right after the build)")
 	if len(os.Args) < 2 {
 		die(2, "usage: check <ID> [--tier quick|thorough] [--replay file] [--selftest]")
 	}
@@ -167,7 +207,7 @@ func main() {
 		}
 	}
 	t0 := time.Now()
-	b := build(id, m)
+	b := build(id, m, *patch)
 	if !*keep {
 		defer os.RemoveAll(b.scratch)
 	}
